@@ -501,7 +501,58 @@ fn directed_prelude(ty: &str, rng: &mut Rng) -> Option<(u64, Vec<Vec<u64>>)> {
             vec![K_MERGE, rb, rc],                       // B <- C
             vec![K_MERGE, rc, rb],
         ])),
-        "mapor" | "mapmm" | "mapmv" => Some(match rng.below(2) {
+        "mapor" | "mapmm" | "mapmv" => Some(match rng.below(5) {
+            // two removes issued from one read context (equal clocks, different keys) are parked
+            // on two different fresh replicas, which merge before the updates arrive
+            2 => (1, vec![
+                vec![K_EDIT, ra, 0, 0, 1, m0, 0],        // A: update k0                       (op 0)
+                vec![K_EDIT, ra, 1, 0, 1, m1, 0],        // A: update k1                       (op 1)
+                vec![K_DELIVER, rb, nodup, 0],
+                vec![K_DELIVER, rb, nodup, 0],
+                vec![K_DELIVER, rc, nodup, 0],
+                vec![K_DELIVER, rc, nodup, 0],
+                vec![K_EDIT, rb, 0, 7],                  // B: rm k0 with the read_ctx context (op 2)
+                vec![K_EDIT, rc, 1, 7],                  // C: rm k1, same context             (op 3)
+                vec![K_SPAWN, 0, 3],                     // fresh D
+                vec![K_SPAWN, 0, 4],                     // fresh E
+                vec![K_DELIVER, 3, nodup, 1],            // D parks B's remove
+                vec![K_DELIVER, 4, nodup, 2],            // E parks C's remove
+                vec![K_LAWS, 3, 4, ra],
+                vec![K_MERGE, 3, 4],
+                vec![K_DELIVER, 3, nodup, 0],            // the updates arrive at D
+                vec![K_DELIVER, 3, nodup, 0],
+                vec![K_MERGE, 4, 3],
+            ]),
+            // a remove whose context spans two actors is parked; the covered updates arrive one
+            // actor at a time, by op and then inside a merged state
+            3 => (1, vec![
+                vec![K_EDIT, ra, 0, 0, 1, m0, 0],        // A: update k0                       (op 0)
+                vec![K_EDIT, rb, 0, 0, 1, m1, 0],        // B: update k0 concurrently          (op 1)
+                vec![K_DELIVER, rc, nodup, 0],
+                vec![K_DELIVER, rc, nodup, 0],           // C has seen both
+                vec![K_EDIT, rc, 0, 5],                  // C: rm k0, context {A:1,B:1}        (op 2)
+                vec![K_SPAWN, 0, 3],                     // fresh D
+                vec![K_DELIVER, 3, nodup, 2],            // D parks the remove
+                vec![K_DELIVER, 3, nodup, 0],            // A's update arrives alone
+                vec![K_SPAWN, 0, 4],                     // fresh E
+                vec![K_DELIVER, 4, nodup, 2],            // E parks the remove too
+                vec![K_MERGE, 4, rb],                    // B's update arrives inside a state
+                vec![K_DELIVER, 3, nodup, 0],            // B's update arrives at D
+                vec![K_MERGE, 3, 4],
+            ]),
+            // a parked remove; the update it covers arrives inside a merged state, in both directions
+            4 => (1, vec![
+                vec![K_EDIT, ra, 0, 0, 1, m0, 0],        // A: update k0                       (op 0)
+                vec![K_EDIT, ra, 0, 0, 1, m1, 0],        // A: update k0 again                 (op 1)
+                vec![K_DELIVER, rb, nodup, 0],
+                vec![K_DELIVER, rb, nodup, 0],
+                vec![K_EDIT, rb, 0, 5],                  // B: rm k0, context {A:2}            (op 2)
+                vec![K_SPAWN, 0, 3],                     // fresh D
+                vec![K_DELIVER, 3, nodup, 1],            // D parks the remove
+                vec![K_MERGE, 3, ra],                    // D <- A: the updates arrive by state
+                vec![K_MERGE, rc, 3],                    // C <- D
+                vec![K_MERGE, ra, 3],                    // A <- D: the parked remove travels
+            ]),
             // a key remove that only partly empties an entry, then a merge with a stale replica
             0 => (1, vec![
                 vec![K_EDIT, ra, 0, 0, 1, m0, 0],        // A: update k0 (nested add/write)   (op 0)
